@@ -155,7 +155,10 @@ def c03Block (s : State) (b : Block) : List String :=
     | .error _ => acc
     | .ok uxIn =>
       match hoursInLegacy (headTime s) uxIn 0 with
-      | .error _ => acc
+      | .error _ =>
+        -- the hours the inputs accrued overflow 64 bits (and it is not the documented legacy exception):
+        -- nothing can be said to have been "accrued", the spend must be refused
+        if acc.contains "C03[input-hours-overflow-accepted]" then acc else acc ++ ["C03[input-hours-overflow-accepted]"]
       | .ok hin =>
         if nat ≥ 2^64 then (if acc.contains "C03[outhours-wrap]" then acc else acc ++ ["C03[outhours-wrap]"])
         else if nat > hin then acc ++ ["C03[hours-created]"] else acc) []
